@@ -20,6 +20,7 @@
 #include "unicode.h"
 
 #include <ctime>
+#include <limits>
 #include <map>
 #include <regex>
 #include <set>
@@ -1076,7 +1077,9 @@ void output_text(FILE *pfile)
                min_col++;
             }
 
-            if (pc->GetColumn() < min_col)
+            // a column "below zero" (an unsigned subtraction that wrapped around) is too small as well
+            if (  pc->GetColumn() < min_col
+               || pc->GetColumn() > (std::numeric_limits<size_t>::max() / 2))
             {
                reindent_line(pc, min_col);
             }
